@@ -180,3 +180,22 @@ Example C07_moves_example :
                                          [AConnect [104%N] 21%N None; ADownload [102%N] None None])) in
   (0 < io_count (run_it 150%N))%nat /\ io_count (run_it 550%N) = O.
 Proof. exact moves_example. Qed.
+
+(* ---- the session stays usable: every call but connect / disconnect, every state, every server (Stays_Global.v) ---- *)
+From LibFtp Require Closing_Global Stays_Global.
+
+(* unless a 421 was read in it, a call leaves the control connection as it found it: after a refused command, a refused or
+   failed transfer, a reply that never came, the client is still connected *)
+Theorem C07_call_leaves_the_connection_as_it_was : forall a w, Stays_Global.keeps a ->
+  exists tr, w_trace (snd (step w a)) = w_trace w ++ tr /\
+    (~ Closing_Global.has421 tr -> w_open (snd (step w a)) = w_open w).
+Proof. exact Stays_Global.step_leaves_the_connection_as_it_was. Qed.
+Print Assumptions C07_call_leaves_the_connection_as_it_was.
+
+Example C07_example_still_connected_after_refusal_and_failure :
+  let w0 := init_world (mkConfig Passive true TBinary false false) Stays_Global.stays_script in
+  let w1 := snd (steps w0 [AConnect [104] 21 None]) in
+  let w2 := snd (step w1 (ADownload [102] None None)) in
+  let w3 := snd (step w2 (ADownload [103] None None)) in
+  w_open w1 = true /\ w_open w2 = true /\ fst (step w2 (ADownload [103] None None)) = OThrow /\ w_open w3 = true.
+Proof. exact Stays_Global.stays_example. Qed.
